@@ -1,11 +1,12 @@
 #!/bin/sh
 # usage: selftest/sweep.sh <tier> <seed>...   runs every check with each seed against /repo (private build/evidence dirs)
 tier=$1; shift
+here=$(cd "$(dirname "$0")/.." && pwd)   # the tree this script lives in (a vp snapshot runs its own copy)
 scratch=$(mktemp -d /tmp/vsweep-XXXXXX)
 for seed in "$@"; do
   for p in C01 C02 C03 C04 C05 C06 C07 C08 C09 C10 C11 C12 C13 C14 C15 C16 C17 C18 C19 C20; do
     t0=$(date +%s)
-    out=$(VERIF_SEED=$seed VERIF_BUILD_DIR=$scratch/build VERIF_EVIDENCE_DIR=$scratch/evidence-$seed /verif/check $p --tier $tier 2>&1)
+    out=$(VERIF_SEED=$seed VERIF_BUILD_DIR=$scratch/build VERIF_EVIDENCE_DIR=$scratch/evidence-$seed $here/check $p --tier $tier 2>&1)
     rc=$?
     echo "seed=$seed $p rc=$rc $(( $(date +%s) - t0 ))s $(printf '%s\n' "$out" | grep -E "tier=|VIOLATION|BROKEN" | head -3 | tr '\n' ' ' | cut -c1-300)"
   done
